@@ -1333,3 +1333,71 @@ func NoErrorResultOnce(res *fw.Result, seed int64) error {
 	res.Eval(true, []interface{}{"no-error-result"})
 	return nil
 }
+
+// libGoroutines counts the goroutines of this process whose stack contains the given library function.
+func libGoroutines(fn string) int {
+	buf := make([]byte, 8<<20)
+	buf = buf[:runtime.Stack(buf, true)]
+	n := 0
+	for _, g := range strings.Split(string(buf), "\n\n") {
+		if strings.Contains(g, fn) {
+			n++
+		}
+	}
+	return n
+}
+
+// CloseLeavesNoWatcher: subscriptions whose context outlives the client (a long-lived application context, or none at
+// all: the library then uses the background context).  After the closer has returned and the channels are closed, no
+// goroutine of the client may be left waiting for those contexts.
+func CloseLeavesNoWatcher(res *fw.Result, seed int64) error {
+	before := libGoroutines("go-jsonrpc.(*wsConn).handleCtxAsync")
+	run, closer, cancel, err := newRunner(seed+91, 0, true)
+	if err != nil {
+		return err
+	}
+	defer cancel()
+	defer run.E.Close()
+	base := nextToks(20)
+	long, longCancel := context.WithCancel(context.Background())
+	defer longCancel()
+	var chans []<-chan int
+	for i := 0; i < 4; i++ {
+		ch, err := run.CL.Sub(long, base+i, -1)
+		if err != nil {
+			return fmt.Errorf("close-leaves-no-watcher: subscribe: %v", err)
+		}
+		chans = append(chans, ch)
+	}
+	scenClose(res, closer, "close with open subscriptions")
+	for i, ch := range chans {
+		deadline := time.After(3 * time.Second)
+	drain:
+		for {
+			select {
+			case _, ok := <-ch:
+				if !ok {
+					break drain
+				}
+			case <-deadline:
+				res.Add(fw.Finding{Kind: "monitor", Signature: "channel not closed by the client's close", Detail: fmt.Sprintf("subscription %d still open 3s after the closer returned", i)})
+				break drain
+			}
+		}
+	}
+	left := 0
+	for w := 0; w < 400; w++ {
+		if left = libGoroutines("go-jsonrpc.(*wsConn).handleCtxAsync") - before; left <= 0 {
+			break
+		}
+		time.Sleep(5 * time.Millisecond)
+	}
+	if left > 0 {
+		res.Add(fw.Finding{Kind: "monitor", Signature: "subscription context watchers left behind by the close",
+			Detail: fmt.Sprintf("%d goroutine(s) of the closed client are still blocked in handleCtxAsync 2s after the closer returned and every channel was closed: they wait for subscription contexts that outlive the client (and pin the connection object)", left),
+			Case:   map[string]interface{}{"scenario": "close-leaves-no-watcher"}})
+	}
+	res.Count("close-leaves-no-watcher")
+	res.Eval(true, []interface{}{"close-leaves-no-watcher"})
+	return nil
+}
